@@ -86,7 +86,16 @@ impl<'a, D: DataT> Ctx<'a, D> {
 
     /// Add a new filter binding.
     fn cons_fun(mut self, (f, ctx): (Id, Self)) -> Self {
-        self.vars.0 = self.vars.0.cons(Bind::Fun((f, ctx.vars)));
+        // if the filter is just a filter argument of the caller, pass that argument on as it is;
+        // otherwise, a recursive call `f(g)` inside `def f(g)` would wrap `g` once per call
+        let fun = match &ctx.lut().terms[f.0] {
+            Ast::Var(v) => match ctx.vars.get(*v) {
+                Some(Bind::Fun(fun)) => fun.clone(),
+                _ => (f, ctx.vars),
+            },
+            _ => (f, ctx.vars),
+        };
+        self.vars.0 = self.vars.0.cons(Bind::Fun(fun));
         self
     }
 
